@@ -169,7 +169,7 @@ Definition dcmp (a b : dval) : Z :=
 (* ORDER BY keys: (descending?, key expression) *)
 Definition okeys : Type := list (bool * (row -> value))%type.
 Definition okey (ks : okeys) (x : row) : list dval :=
-  map (fun k => if fst k then Desc (snd k x) else Asc (snd k x)) ks.
+  map (fun k : (bool * (row -> value))%type => if fst k then Desc (snd k x) else Asc (snd k x)) ks.
 Definition skey (ks : okeys) (x : row) : list dval := okey ks x ++ map Asc x.
 Definition item_cmp (ks : okeys) (a b : row) : Z := lex_cmp dcmp (skey ks a) (skey ks b).
 Definition item_less (ks : okeys) (a b : row) : bool := item_cmp ks a b =? -1.
@@ -299,7 +299,7 @@ Fixpoint sorted_by (ks : okeys) (l : list row) : bool :=
 
 (* ------------------------------------------------------------------------------------------------ *)
 (* The differential cases of engine c15. *)
-Definition okeys_of (ks : list (bool * expr)) : okeys := map (fun k => (fst k, eval (snd k))) ks.
+Definition okeys_of (ks : list (bool * expr)) : okeys := map (fun k : (bool * expr)%type => (fst k, eval (snd k))) ks.
 Inductive node_spec :=
 | NFilter (e : expr)
 | NMap (es : list expr)
@@ -371,6 +371,7 @@ Definition batch_of (nd : node_spec) (rows : list row) : option (list rec) :=
   | _ => None        (* limits: property C05 *)
   end.
 Definition insert_only (l : list rec) : bool := forallb (fun r => negb (retr r)) l.
+Definition rows_of (l : list event) : list row := map vals (records l).
 (* does the node promise a valid output changelog for this input?  (LookupJoin: when the joined side only inserts) *)
 Definition promises_valid (nd : node_spec) : bool :=
   match nd with
